@@ -11,7 +11,7 @@ def irdl_attr_definition(cls):
 
 from pyvc.irdlhelpers import (attr_def, irdl_defs, irdl_init, operand_def, opt_attr_def, opt_operand_def, opt_prop_def, opt_region_def,
                               opt_result_def, prop_def, region_def, result_def, var_operand_def, var_region_def, var_result_def)
-from xdsl.ir import Operation
+from xdsl.ir import Operation, Region
 
 
 def _none(*a, **k):
@@ -43,8 +43,6 @@ class IRDLOperation(Operation):
         """as xdsl: a new op of the same class, operands looked up in `value_mapper` (by identity), same properties and
         attributes, fresh results which are entered into the mapper; ops with regions are not modelled"""
         vm = value_mapper if value_mapper is not None else {}
-        if len(self.regions) > 0:
-            raise NotImplementedError("clone of an op with regions")
         operands = []
         result_types = []
         for (n, kind, variadic, optional) in irdl_defs(self):
@@ -63,7 +61,9 @@ class IRDLOperation(Operation):
                     result_types.append([] if val is None else [val.type])
                 else:
                     result_types.append(val.type)
-        new = type(self).create(operands, result_types, dict(self.properties), dict(self.attributes))
+        # regions are cloned deeply: fresh block arguments, every inner op cloned through the same mapper
+        regions = [Region([b.clone_into(vm) for b in r.blocks]) for r in self.regions]
+        new = type(self).create(operands, result_types, dict(self.properties), dict(self.attributes), (), regions)
         k = 0
         for r in self.results:
             vm[r] = new.results[k]
